@@ -171,8 +171,9 @@ pub fn run(case: &Value, _seed: u64) -> Outcome {
     }
     // DEP-3 mail-style aliases: From / Subject stand in for Author / Description only when those are absent; with
     // both present the typed value must carry what the lossless view's accessors show
-    if kind == "dep3" && case["ok"].as_bool() == Some(true) {
-        let t2 = format!("{}From: Git Committer <c@example.com>\nSubject: a mail subject\n", render(case));
+    for subject in ["a mail subject", "[PATCH 2/3] Fix the build", "[PATCH v2 1/1] x: y", "[PATCH] fix", "Re: [PATCH] z", "[RFC][PATCH 10/12] a [b] c"] {
+      if kind == "dep3" && case["ok"].as_bool() == Some(true) {
+        let t2 = format!("{}From: Git Committer <c@example.com>\nSubject: {}\n", render(case), subject);
         o.evals += 1;
         let r = guarded("dep3 lossy vs lossless (aliases)", || {
             let ly = dep3::lossy::PatchHeader::from_str(&t2).map_err(|e| format!("lossy rejected: {}", e))?;
@@ -183,6 +184,7 @@ pub fn run(case: &Value, _seed: u64) -> Outcome {
             Ok(())
         });
         match r { Ok(Ok(())) => {} Ok(Err(m)) => o.v("C20", "matches_lossless", "lossy dep3::from_str", "mismatch", &feats, &t2, m), Err(m) => o.v("C20", "total", "lossy dep3::from_str", "panic", &feats, &t2, m) }
+      }
     }
     o.evals += 1;
     let api = format!("lossy {}::from_str", kind);
